@@ -29,7 +29,7 @@ def dec(x):
 def animate_unit(cached, pil_source):
     name = f"common:ImageIterator._animate[{'cached' if cached else 'uncached'},{'PIL-source' if pil_source else 'file-source'}]"
 
-    @unit(("C09", "C11"), name)
+    @unit(("C09", "C11", "C20"), name)
     def u(ctx):
         eng = ctx.engine("C11/" + name.split(":", 1)[1], "C11")
         eng.inv_props = ("C09", "C11")
@@ -80,6 +80,10 @@ def animate_unit(cached, pil_source):
                 and raw.f["style"] == (("frame", True), ("style_arg", s.H(STYLE)["@items"]["style_arg"]))
             e.oblige("C11:frame-rendered-with-the-iterator's-own-alpha,style-arguments-and-format", s, ok, prop="C11", kind="pre")
             e.oblige("C09:frame-rendered-with-the-iterator's-own-alpha,style-arguments-and-format(cached-or-not)", s, ok, prop="C09", kind="pre")
+            # C20: a render method given for this iteration (specifier / draw(method=...)) is a style argument: every frame, whenever
+            # it is rendered, uses it
+            e.oblige("C20:every-frame-rendered-with-the-style-arguments-of-this-iteration(per-call-method-override-included)", s, ok, prop="C20", kind="pre",
+                     replay="C09.image_iterator")
             if not ok:
                 return [(Rec("text", {"id": e.sym_int("some_other_text")}), s)]          # some other text: the run goes on, the obligation above has failed
             return [(Rec("text", {"id": FR(raw.f["n"], raw.f["size"])}), s)]
